@@ -97,6 +97,19 @@ def _case(draw):
     case = {"mode": mode, "pool": pool, "reactions": reacs, "required": [i for i in range(len(pool)) if i not in used and draw(st.booleans())], "eletter": eletter,
             "cooling": [], "heating": [], "ode_mod": [], "grain_spelling": draw(st.sampled_from(["GRAIN0", "GRAIN0", "GRAIN0", "mixed"])),
             "req_route": draw(st.sampled_from(["constructor", "constructor", "setter-after-read"]))}
+    # the extra-species list is free text of the user: a species may be named twice, under two spellings (e- / E), or
+    # although it reacts
+    if case["required"] and draw(st.integers(0, 3)) == 0:
+        case["required"].append(case["required"][0])
+    if used and draw(st.integers(0, 3)) == 0:
+        case["required"].append(draw(st.sampled_from(sorted(used))))
+    if mode == "default" and draw(st.integers(0, 4)) == 0:
+        ei = next((i for i, sp in enumerate(pool) if sp["k"] == "e"), None)
+        if ei is None:
+            pool.append({"k": "e"})
+            ei = len(pool) - 1
+        case["required"] += [ei, ei]
+        case["req_e_both"] = True
     return case
 
 
@@ -118,7 +131,14 @@ def spell(case, sp):
 def make_network(case, reacs, names, kw):
     from naunet.network import Network
 
-    req = [names[i] for i in case["required"]]
+    req = []
+    ne = 0
+    for i in case["required"]:
+        if case.get("req_e_both") and case["pool"][i]["k"] == "e":
+            req.append(("e-", "E")[ne % 2])  # the same electron under both spellings
+            ne += 1
+        else:
+            req.append(names[i])
     if case.get("req_route") == "setter-after-read" and req:
         # the extra species are declared after the network has been looked at (species / elements already read once)
         net = Network(reactions=reacs, **kw)
